@@ -3,7 +3,8 @@
 /repo's working tree, runs `wa test` on small generated packages. Each package holds one or two test /
 example functions drawn from a fixed catalogue of behaviours (prints the expected output / another output /
 output beginning with slashes, panics with the expected message / another message / the message only as a
-suffix, does not panic although a panic is expected, traps, has no expectation). The verdict must be
+suffix, does not panic although a panic is expected, traps, traps after printing the expected output, declares an
+empty expected output but prints, prints an indented line, has no expectation). The verdict must be
 `ok` + exit 0 exactly when every function meets its contract, `FAIL` + non-zero exit otherwise.
 Prints a JSON object on its last line; exit 1 on a counterexample."""
 import itertools, json, os, shutil, subprocess, sys, tempfile
@@ -24,6 +25,9 @@ CATALOGUE = [
     ("panic_suffix",'panic("very bad thing")\n\n\t// Output(panic):\n\t// bad thing', False),
     ("panic_none",  'println("fine")\n\n\t// Output(panic):\n\t// bad thing', False),
     ("trap",        'println(Div(1, 0))', False),
+    ("out_bare_prints", 'println("x")\n\n\t// Output:', False),
+    ("out_indented", 'println("a")\n\tprintln("  b")\n\n\t// Output:\n\t// a\n\t//   b', True),
+    ("out_then_trap", 'println("usr/bin")\n\tprintln(Div(1, 0))\n\n\t// Output:\n\t// usr/bin', False),
 ]
 def run():
     wa = os.path.join(tmp, "wa")
